@@ -6077,12 +6077,15 @@ impl BytecodeVM {
         // Check if there's a try handler with a finally block between us and the target
         let target_try_depth = try_depth as usize;
 
-        // Find the first try handler ABOVE target depth that has a finally block
+        // Find the INNERMOST try handler above the target depth that has a finally block:
+        // finally blocks run from the inside out (each one re-dispatches this completion
+        // when it ends)
         if let Some(handler_idx) = self
             .try_stack
             .iter()
             .enumerate()
             .skip(target_try_depth)
+            .rev()
             .find(|(_, h)| h.finally_ip != 0)
             .map(|(i, _)| i)
         {
@@ -6118,12 +6121,15 @@ impl BytecodeVM {
         // Check if there's a try handler with a finally block between us and the target
         let target_try_depth = try_depth as usize;
 
-        // Find the first try handler ABOVE target depth that has a finally block
+        // Find the INNERMOST try handler above the target depth that has a finally block:
+        // finally blocks run from the inside out (each one re-dispatches this completion
+        // when it ends)
         if let Some(handler_idx) = self
             .try_stack
             .iter()
             .enumerate()
             .skip(target_try_depth)
+            .rev()
             .find(|(_, h)| h.finally_ip != 0)
             .map(|(i, _)| i)
         {
